@@ -227,7 +227,14 @@ func (sms *sqlMetadataStore) AppendObject(ctx context.Context, tx *sql.Tx, bucke
 		if !*updated {
 			return nil, metadatastore.ErrCASFailure
 		}
-		if err = sms.savePartRows(ctx, tx, *updatedEntity.Id, obj.Parts[len(existingParts):], len(existingParts)); err != nil {
+		// Continue after the highest existing sequence number: parts of an
+		// object completed from a multipart upload are numbered from 1, so
+		// their count is not the next free number.
+		nextSequenceNumber := 0
+		if len(existingParts) > 0 {
+			nextSequenceNumber = existingParts[len(existingParts)-1].SequenceNumber + 1
+		}
+		if err = sms.savePartRows(ctx, tx, *updatedEntity.Id, obj.Parts[len(existingParts):], nextSequenceNumber); err != nil {
 			return nil, err
 		}
 		return &metadatastore.PartMutationResult{}, nil
